@@ -483,7 +483,7 @@ class VM:
                     elif isinstance(value, JSObject):
                         obj._prototype = value
                 else:
-                    obj.set(key_str, value)
+                    obj.define_property(key_str, value)
             self.stack.append(obj)
 
         elif op == OpCode.BUILD_REGEX:
